@@ -48,6 +48,11 @@ def oracle(program, aux):
     run = Run(program)
     run.run_all()
     run.stats = {'c01_domain': 0, 'not_hybrid': 0}
+    for pr in run.problems:
+        if '/accepted-but-must-refuse/isohybrid-present' in pr.sig:
+            # a hybrid boot sector without the El Torito entries it describes cannot be "a boot-file address equal to four
+            # times the boot file's sector"
+            failures.append(('C12/' + pr.sig, 'mbr', 'step %d: %s' % (pr.step, pr.msg)))
     img = None if (run.dead or run.problems) else run.write()
     if img is None:
         run.stats['c01_domain'] += 1
@@ -112,7 +117,9 @@ def oracle(program, aux):
     for clause, msg in fs:
         failures.append(('C12/%s/%s' % (clause, gpt), clause, msg[:400]))
     # otherwise an unchanged, valid ISO: differential against the same history without add_isohybrid
-    plain = dict(program, ops=[o for o in program['ops'] if o['k'] not in ('add_hybrid', 'rm_hybrid')])
+    # (calls that had to be refused because of the hybridization - rm_eltorito - are left out as well)
+    gone = set(run.ops[i].get('n') for i in run.expected_refusals)
+    plain = dict(program, ops=[o for o in program['ops'] if o['k'] not in ('add_hybrid', 'rm_hybrid') and o.get('n') not in gone])
     r2 = Run(plain)
     r2.run_all()
     img2 = None if (r2.dead or r2.problems) else r2.write()
